@@ -32,6 +32,9 @@ impl Scenario for Sc {
     }
     fn run(&self, ch: &mut Chooser) -> Outcome {
         let scn = &self.0;
+        if std::env::var("H2X_TRACE").is_ok() {
+            eprintln!("TRACE {} prefix_len={}", scn.name, ch.prefix_len());
+        }
         let ex = run::execute(scn, ch);
         if ex.horizon {
             mc_core::machinery(format!(
@@ -143,6 +146,19 @@ fn main() {
             Some(k) if k.len() == picks.len() => Chooser::with_kinds(picks.clone(), k),
             _ => Chooser::new(picks.clone()),
         };
+        if std::env::var("H2X_ECHO").is_ok() {
+            std::thread::spawn(|| {
+                std::thread::sleep(Duration::from_secs(3));
+                use std::sync::atomic::Ordering::Relaxed;
+                eprintln!(
+                    "WATCHDOG: still running after 3 s; polls: server connection {}, client connection {}, handlers {}",
+                    run::SERVER_POLLS.load(Relaxed),
+                    run::CLIENT_POLLS.load(Relaxed),
+                    run::HANDLER_POLLS.load(Relaxed)
+                );
+                std::process::exit(2);
+            });
+        }
         println!("replay of scenario {name}");
         println!("{}", serde_json::to_string_pretty(&sc.describe()).unwrap());
         println!("picks: {picks:?}");
